@@ -40,6 +40,7 @@ type proxyConn struct {
 	brw    *bufio.ReadWriter
 	conn   net.Conn
 	secure bool
+	mitm   bool // the TLS session was terminated by handleMITM
 	cs     tls.ConnectionState
 }
 
@@ -225,6 +226,7 @@ func (p *proxyConn) handleMITM(req *http.Request) error {
 
 		p.conn = tlsconn
 		p.secure = true
+		p.mitm = true
 		p.cs = cs
 
 		return nil
@@ -351,6 +353,11 @@ func (p *proxyConn) handle() error {
 	ctx := req.Context()
 
 	p.fixRequestScheme(req)
+	if p.mitm {
+		// The request was read from an intercepted TLS session: it goes to its target over TLS,
+		// whatever scheme the client put into the request line or X-Forwarded-Proto.
+		req.URL.Scheme = "https"
+	}
 
 	reqUpType := upgradeType(req.Header)
 	if reqUpType != "" {
